@@ -1,0 +1,47 @@
+//go:build verif
+
+package cli
+
+import (
+	"github.com/spf13/cobra"
+	"github.com/spf13/pflag"
+)
+
+// Read-only view of the command tree for the /verif harness. Not built without -tags verif.
+
+// VerifFlag is one flag definition.
+type VerifFlag struct {
+	Name      string
+	Shorthand string
+	Type      string
+}
+
+// VerifCmd is one command with its own flags and the persistent flags it defines.
+type VerifCmd struct {
+	Path       []string // names from the root down to this command
+	Local      []VerifFlag
+	Persistent []VerifFlag
+}
+
+func verifFlags(fs *pflag.FlagSet) []VerifFlag {
+	var out []VerifFlag
+	fs.VisitAll(func(f *pflag.Flag) {
+		out = append(out, VerifFlag{Name: f.Name, Shorthand: f.Shorthand, Type: f.Value.Type()})
+	})
+	return out
+}
+
+// VerifCommandTree lists every command of the CLI with the flags it declares (before cobra merges them).
+func VerifCommandTree() []VerifCmd {
+	var out []VerifCmd
+	var walk func(c *cobra.Command, path []string)
+	walk = func(c *cobra.Command, path []string) {
+		p := append(append([]string(nil), path...), c.Name())
+		out = append(out, VerifCmd{Path: p, Local: verifFlags(c.LocalNonPersistentFlags()), Persistent: verifFlags(c.PersistentFlags())})
+		for _, sub := range c.Commands() {
+			walk(sub, p)
+		}
+	}
+	walk(rootCmd, nil)
+	return out
+}
